@@ -184,6 +184,10 @@ type ImageSel struct {
 	// flush that allocated nothing, header missing): used outside C04, where the
 	// open C04 findings must not be re-reported under another property
 	OnlyStrict bool `json:"only_strict,omitempty"`
+	// GhostDir: before recovery an empty directory of this name is made under
+	// data/ - what a process leaves that died right after the mkdir of an
+	// unacknowledged CREATE DATABASE
+	GhostDir string `json:"ghost_dir,omitempty"`
 	// Cont: what happens after recovery (statements, directives, nested images)
 	Cont *Plan `json:"cont,omitempty"`
 }
@@ -199,8 +203,10 @@ type Knobs struct {
 	// CPU yet, it stays behind until the session next needs the store lock, closes
 	// the store, or virtual time passes. Crash images taken in between see an
 	// acknowledged statement and a flush that has not started.
-	LazyWake   bool  `json:"lazy_wake,omitempty"`
-	PressureAt int64 `json:"pressure_at,omitempty"` // main timeline: at this cache event every other clean resident page is marked dirty (cache pressure fault)
+	LazyWake bool `json:"lazy_wake,omitempty"`
+	// SlowWriteAt: the n-th page write of the main timeline takes 60 ms of real time (stalled disk)
+	SlowWriteAt int   `json:"slow_write_at,omitempty"`
+	PressureAt  int64 `json:"pressure_at,omitempty"` // main timeline: at this cache event every other clean resident page is marked dirty (cache pressure fault)
 	// BiasKey / BiasLSN: right after CREATE DATABASE the counters in the file
 	// header are raised to these values (as if a long history lay behind), so
 	// that row ids and LSNs cross 2^8, 2^16, 2^24, 2^32 boundaries within a short run
